@@ -695,7 +695,10 @@ class Substance:
             # ratio, which has been rounded to ten digits
             mass, _, activity = specific_activity.partition('/')
             activity = activity if ' ' in activity else '1 ' + activity
-            substance.specific_activity = Unit.parse_quantity(activity)[0] / Unit.parse_quantity(mass)[0]
+            mass = Unit.parse_quantity(mass)[0]
+            if mass == 0:
+                raise ValueError("Specific activity must be positive.")  # ('0 g/U': no mass carries the activity)
+            substance.specific_activity = Unit.parse_quantity(activity)[0] / mass
         else:
             raise ValueError("Specific activity must be in U/g or g/U.")
         if not 0 < substance.specific_activity < float('inf'):
